@@ -67,22 +67,28 @@ func (p *gpipe) send(v proto.Message) error {
 
 // release makes the next undelivered frame (or, when none is left, the end marker)
 // receivable. It reports what was released: "frame", "end" or "".
-func (p *gpipe) release() string {
+// pre is called with the outcome before the receiver is woken, so that the delivery is
+// logged ahead of everything the receiver does with the frame.
+func (p *gpipe) release(pre func(what string)) string {
 	p.mu.Lock()
 	defer p.mu.Unlock()
 	if p.dead {
+		pre("none")
 		return ""
 	}
 	if p.released < len(p.q) {
+		pre("frame")
 		p.released++
 		p.cond.Broadcast()
 		return "frame"
 	}
 	if p.term && !p.termRel {
+		pre("end")
 		p.termRel = true
 		p.cond.Broadcast()
 		return "end"
 	}
+	pre("none")
 	return ""
 }
 
